@@ -7,10 +7,11 @@ cd "$W" || exit 9
 echo "== confirming in $W"
 T_AFTER=$(PYTHONPATH="$W" /venv/bin/python -m pytest -q -p no:cacheprovider 2>&1 | tail -1)
 PYTHONPATH="$W" /venv/bin/python demo.py >/tmp/seed_demo_changed.txt 2>&1; D_CHANGED=$?
-git stash -q
+git diff > /tmp/seed_cur.diff
+git apply -R /tmp/seed_cur.diff
 T_BEFORE=$(PYTHONPATH="$W" /venv/bin/python -m pytest -q -p no:cacheprovider 2>&1 | tail -1)
 PYTHONPATH="$W" /venv/bin/python demo.py >/tmp/seed_demo_orig.txt 2>&1; D_ORIG=$?
-git stash pop -q
+git apply /tmp/seed_cur.diff
 echo "tests before: $T_BEFORE"; echo "tests after : $T_AFTER"; echo "demo exit original=$D_ORIG changed=$D_CHANGED"
 mkdir -p /verif/seeded/$ID
 git diff > /verif/seeded/$ID/patch.diff
